@@ -27,7 +27,9 @@ RULE = ('Synthetic extract files: an IP0000T1 index with random distinct 3-chara
         'unblocked. Oracle: exactly the requested table\'s rows in file order, each with its own timestamp and code and every column '
         '== expanded_row[start:end]; compressed and expanded runs give equal column values; the CSV from mci_ipm_param_to_csv '
         'parses back to the same rows; a file without the index trailer and a table without configuration raise MciIpmDataError. '
-        'Non-trivial = >= 2 wanted rows interleaved with >= 1 foreign row; distinct by digest.')
+        'Long-run files: 3..6 uninterrupted runs of 1..4000 rows of one table each, always with a run of >= 1100 rows of a table '
+        'that was not asked for (real extracts group thousands of rows per table). '
+        'Non-trivial = >= 2 wanted rows interleaved with >= 1 foreign row, or a foreign run of >= 1000 rows; distinct by digest.')
 ASSUMPTIONS = ['sub-ids never equal "REC" (characters 8..10 of a TRAILER RECORD line), which a real index cannot contain either',
                'row text is drawn from the printable part of the codec repertoire without CR/LF (rows also travel through CSV)']
 
@@ -106,8 +108,51 @@ def extract_files(draw, tier):
                 trailers_at=trailers_at, blocked=blocked, empty_tables=empty_tables)
 
 
+def expand(case):
+    """cases of the long-run task carry `runs` = [(table, count), ...] instead of the rows themselves"""
+    if 'runs' not in case or case.get('rows'):
+        return case
+    case = dict(case)
+    rows, i = [], 0
+    body = case['run_body']
+    subs_of = {}
+    for sub, t in case['index']:
+        subs_of.setdefault(t, []).append(sub)
+    for t, count in case['runs']:
+        for _ in range(count):
+            rows.append((t, '%010d' % i, 'AI X'[i % 4], body[i % 7:], subs_of[t][i % len(subs_of[t])]))
+            i += 1
+    case['rows'] = rows
+    return case
+
+
+@st.composite
+def long_run_files(draw):
+    """few tables, long uninterrupted runs of rows of one table (real extract files group thousands of rows per table)"""
+    case = draw(extract_files('quick'))
+    tables = sorted({t for _, t in case['index']})
+    if len(tables) == 1:
+        extra = 'IP%04dT1' % (int(case['wanted'][2:6]) % 9000 + 1)
+        tables.append(extra)
+        case['index'] = case['index'] + [('zzz', extra)]
+    runs = []
+    for _ in range(draw(uniform(2, 5))):
+        runs.append((draw(st.sampled_from(tables)), draw(st.sampled_from([1, 2, 40, 900, 1100, 1500, 2600, 4000]))))
+    foreign = [t for t in tables if t != case['wanted']]
+    runs.insert(draw(uniform(0, len(runs))), (draw(st.sampled_from(foreign)), draw(st.sampled_from([1100, 1500, 2600]))))
+    if not any(t == case['wanted'] for t, _ in runs):
+        runs.insert(draw(uniform(0, len(runs))), (case['wanted'], draw(st.sampled_from([1, 3, 1200]))))
+    maxend = max([v['end'] for v in case['layout'].values()] + [60])
+    seedtxt = draw(st.text(alphabet=alphabet(case['codec']), min_size=1, max_size=16))
+    blen = maxend - 19 + 10
+    case.update(rows=[], runs=runs, run_body=(seedtxt * (blen // len(seedtxt) + 1))[:blen], trailers_at=[],
+                empty_tables=[t for t in tables if not any(r[0] == t for r in runs)])
+    return case
+
+
 def build(case, expanded, with_trailer=True):
     """returns (file bytes, expected list of dicts)"""
+    case = expand(case)
     codec = case['codec']
     recs = []
     for i, (sub, t) in enumerate(case['index']):
@@ -274,13 +319,34 @@ def hyp_extracts(ctx, n):
     ctx.floor('has-look-alike-table', 0.3, 'extract')
 
 
+def hyp_long_runs(ctx, n):
+    def body(case):
+        # consecutive runs of foreign tables add up
+        acc = best = 0
+        for t, c in case['runs']:
+            acc = acc + c if t != case['wanted'] else 0
+            best = max(best, acc)
+        ctx.case(key=harness.digest(case), nontrivial=best >= 1000,
+                 labels=['long-runs', 'foreign-run>=1000' if best >= 1000 else 'foreign-run<1000',
+                         'foreign-run>=2500' if best >= 2500 else 'foreign-run<2500',
+                         'wanted-run>=1000' if any(t == case['wanted'] and c >= 1000 for t, c in case['runs']) else 'wanted-run<1000'])
+        res = check(case)
+        if res:
+            ctx.fail(res[0], case, res[1])
+    harness.drive(ctx, long_run_files(), body, n, salt='long-runs')
+    ctx.floor('foreign-run>=1000', 0.9, 'long-runs')   # by construction
+
+
 def tasks(tier, seed):
     full = tier == 'thorough'
-    return [('hyp_extracts', dict(n=300 if not full else 1500)) for _ in range(16)]
+    return ([('hyp_extracts', dict(n=300 if not full else 1500)) for _ in range(12)]
+            + [('hyp_long_runs', dict(n=5 if not full else 25)) for _ in range(4 if not full else 8)])
 
 
 def replay(case):
     case = dict(case)
     case['rows'] = [tuple(r) for r in case['rows']]
     case['index'] = [tuple(x) for x in case['index']]
+    if 'runs' in case:
+        case['runs'] = [tuple(x) for x in case['runs']]
     return check(case) or check_refusals(case)
